@@ -13,7 +13,7 @@ frames), so the fuel is not an artefact: running out of it *is* the Go index pan
 
 Options modelled exactly: table on/off and size, `NoNullMove`, `NoReduceSlides`, `MultiCut`, `MaxEvals`,
 `Depth`, `RandomizeWindow/Scale` (random numbers from the oracle).  `DedupSymmetry` is modelled relative
-to `Game.symHashes`.  Sorting: see `MoveGen.lean`.  Deadlines (`ctx.Deadline`) are not modelled
+to `Game.symHashes` (instantiated for Tak by the driver with `Tak.symmetries`, the model of `symmetry.Symmetries`).  Sorting: see `MoveGen.lean`.  Deadlines (`ctx.Deadline`) are not modelled
 (callers in the harness use contexts without deadline); `Debug` logging and the cut log are ignored. -/
 namespace Search
 open Tak (Err)
